@@ -210,7 +210,7 @@ func bytesToInts(b []byte) []int {
 func C15(c *ev.Ctx) {
 	c.Level = "model_checking"
 	c.Assume("values are rebuilt from limbs with math/big arithmetic (no encoder)", "2^64 values are sampled (boundary limbs + seeded random); buffer lengths 0..12 and the framing dimension are exhausted")
-	cases, ok := runPrimCases(c, "0..12", c.Pick(24, 400))
+	cases, ok := runPrimCases(c, "0..12", c.Pick(24, 1500))
 	if !ok {
 		return
 	}
@@ -523,7 +523,7 @@ func C16(c *ev.Ctx) {
 		wtScenario{Name: "300-leaks-elsewhere-then-signal", TimeoutMs: 1500, SigAtMs: 30, Kind: "signal", Prelude: "farleak"},
 		wtScenario{Name: "300-leaks-elsewhere-then-broadcast", TimeoutMs: 1500, SigAtMs: 5, Kind: "broadcast", Prelude: "farleak"},
 		wtScenario{Name: "300-leaks-elsewhere-then-timeout", TimeoutMs: 20, SigAtMs: -1, Prelude: "farleak"})
-	reps := c.Pick(1, 5)
+	reps := c.Pick(1, 8)
 	validate := func(evs []map[string]any) (bool, int, bool) {
 		tv := validateTrace(dir, "WaitTimeoutTrace", evs, false, 3*time.Minute)
 		c.AddTLC(tv.Res)
